@@ -44,7 +44,9 @@ def main():
     out = {"schemas": [repr(s) for s in schemas], "runs": {}}
     for k in (0, 7, 123456789, "seed", 3.5, b"d42-seed", bytearray(b"\x00\x01seed"), -5, 2 ** 70, ""):
         seqs = []
-        for _ in range(2):
+        for rep in range(2):
+            if rep == 1:
+                between()       # whatever else the process does between two seeded runs must not matter
             Random().set_seed(k)
             vals = []
             for s in schemas:
@@ -55,6 +57,30 @@ def main():
             seqs.append(vals)
         out["runs"][repr(k)] = seqs
     print(json.dumps(out))
+
+
+def between():
+    """public objects constructed and used between the seeded runs: other generators with their own alphabets and caps,
+    validators, substitutors, representors, unrelated fakes / validations / substitutions"""
+    import random as _r
+    from d42 import fake, schema, substitute, validate
+    from d42.generation import Generator, Random, RegexGenerator
+    from d42.representation import Representor
+    from d42.substitution import Substitutor
+    from d42.validation import Validator
+    st = _r.getstate()
+    try:
+        rg = RegexGenerator(Random(), alphabet={"digits": "01", "word": "xyz", "letters": "-"}, max_repeat=3)
+        rg.generate(r"\d\w.[^a]{2,}")
+        Generator(Random(), RegexGenerator(Random(), max_repeat=50))
+        schema.str.regex(r"q{60,}x*").__accept__(Generator(Random(), RegexGenerator(Random(), alphabet={"letters": "ab"})))
+        Validator(), Substitutor(), Representor()
+        validate(schema.dict({"a": schema.list(schema.int)}), {"a": [1, "x"]})
+        substitute(schema.dict, {"k": [1, 2.0, True]})
+        fake(schema.list(schema.str.alphabet("zz9")).len(50))
+        repr(schema.any(schema.int, schema.str.len(1, 2)))
+    finally:
+        _r.setstate(st)
 
 
 def has_neg(s):
